@@ -147,11 +147,17 @@ def run(ctx):
     raise AnalysisError('ParseContext._import_source vanished')
   okp = False
   why = 'no loop over zip(module parts, selector components)'
-  for lp in [n for n in walk_local(isf.node) if isinstance(n, ast.For) and isinstance(n.iter, ast.Call) and u(n.iter.func) == 'zip']:
-    brk = [s_ for s_ in lp.body if isinstance(s_, ast.If) and isinstance(s_.test, ast.Compare) and isinstance(s_.test.ops[0], ast.NotEq)
-           and any(isinstance(b, ast.Break) for b in s_.body)]
-    inc = [s_ for s_ in lp.body if isinstance(s_, ast.AugAssign) and isinstance(s_.op, ast.Add)]
-    if brk and inc and lp.body.index(brk[0]) < lp.body.index(inc[0]):
+  g_is, f_is = std_facts(prog, isf)
+  for lpn in [n for n in g_is.live_nodes() if n.kind == 'for' and isinstance(n.ast.iter, ast.Call) and u(n.ast.iter.func) == 'zip']:
+    tg = [u(e) for e in (lpn.ast.target.elts if isinstance(lpn.ast.target, ast.Tuple) else [lpn.ast.target])]
+    if len(tg) != 2:
+      continue
+    eqs = ('%s == %s' % (tg[0], tg[1]), '%s == %s' % (tg[1], tg[0]))
+    incs = [n for n in g_is.live_nodes() if n.kind == 'stmt' and isinstance(n.ast, ast.AugAssign) and isinstance(n.ast.op, ast.Add) and in_subtree(n.ast, lpn.ast)]
+    brks = [n for n in g_is.live_nodes() if n.kind == 'stmt' and isinstance(n.ast, ast.Break) and in_subtree(n.ast, lpn.ast)]
+    inc_ok = bool(incs) and all(any(('c', e, True) in f_is[n.id] for e in eqs) for n in incs)
+    brk_ok = bool(brks) and all(any(('c', e, False) in f_is[n.id] for e in eqs) for n in brks)
+    if inc_ok and brk_ok:
       okp = True
     else:
       why = 'the loop does not stop at the first mismatch'
